@@ -12,8 +12,11 @@ package agent
 import (
 	"fmt"
 	"os"
+	"sync"
 	"testing"
 	"time"
+
+	"github.com/postalsys/muti-metroo/internal/protocol"
 
 	"github.com/postalsys/muti-metroo/internal/verifkit"
 )
@@ -253,6 +256,7 @@ func TestVerif_C17(t *testing.T) {
 		})
 	}
 	c17BackpressureKill(t, r)
+	c17KillAtOpen(t, r)
 	run("clean", clean, r.N(6, 45))
 	run("prone", prone, r.N(3, 15))
 	r.Require("scenarios_clean", 3)
@@ -332,5 +336,86 @@ func c17BackpressureKill(t *testing.T, r *verifkit.R) {
 		}
 		m.stop()
 		r.Eval(fmt.Sprintf("bpkill/%s/%d/%d", tp.Name, killer, plan.S2C), peakExit > 0)
+	})
+}
+
+// c17KillAtOpen: the exit's connection to the requesting peer is closed at the moment the exit is
+// about to write a STREAM_OPEN_ACK (fault injected from the write tap, which runs before the frame
+// goes out): the exit has dialled the destination successfully and then cannot deliver the
+// acknowledgement. Whatever it had recorded for that tunnel must be released. One
+// fresh mesh per attempt, so the verdict does not depend on the reconnection logic.
+func c17KillAtOpen(t *testing.T, r *verifkit.R) {
+	byName := map[string]c16Topo{}
+	for _, x := range c16Topologies() {
+		byName[x.Name] = x
+	}
+	r.Cases("kill-at-open", r.N(6, 60), func(ci int, rng *verifkit.Rand) {
+		tp := byName[[]string{"pair", "chain3"}[ci%2]]
+		exitNode := len(tp.Spec.Names) - 1
+		dest, err := mkStartDest()
+		if err != nil {
+			r.Inconclusive("cannot start destination server: " + err.Error())
+			return
+		}
+		defer dest.close()
+		tap := mkInstallTap()
+		defer tap.close()
+		m, err := c16BuildMesh(t, tp, dest, 3*time.Second)
+		if err != nil {
+			r.Inconclusive("mesh did not come up: " + err.Error())
+			return
+		}
+		defer m.stop()
+		exit := m.nodes[exitNode].a
+		var amu sync.Mutex
+		armed, kills := 1+rng.Intn(2), 0 // kill at the 1st or 2nd open
+		tap.mu.Lock()
+		tap.onPayload = func(ev *mkFrameEv, payload []byte) {
+			// fire when the exit is about to write the acknowledgement (the write tap runs at
+			// the top of WriteFrame, before the frame goes out): the connection dies between the
+			// successful dial and the ack
+			if !ev.Write || ev.Local != exit.ID() || ev.Type != protocol.FrameStreamOpenAck {
+				return
+			}
+			amu.Lock()
+			armed--
+			fire := armed == 0
+			if fire {
+				kills++
+			}
+			amu.Unlock()
+			if fire {
+				if c := exit.peerMgr.GetPeer(ev.Remote); c != nil {
+					c.Close()
+				}
+			}
+		}
+		tap.mu.Unlock()
+		for k := 0; k < 2; k++ {
+			p := mkTunnelPlan{ID: uint64(ci)<<20 | uint64(k+1), Ingress: 0, Via: "tcp", Dest: fmt.Sprintf("127.%d.0.%d:%d", tp.Exits[exitNode], 10+k, dest.port), C2S: 100, S2C: 100, Mode: mkModeOrderly, Chunk: 50}
+			mkRunTunnel(m, p, 3*time.Second)
+			amu.Lock()
+			done := kills > 0
+			amu.Unlock()
+			if done {
+				break
+			}
+		}
+		dialled := dest.accepts.Load()
+		last, zero, unchanged, samples := c17Settle(m, 40*time.Second, 12*time.Second)
+		r.Add("bookkeeping_samples", samples)
+		r.Add("kill_at_open_scenarios", 1)
+		r.Add("kill_at_open_links_killed", kills)
+		r.Add("kill_at_open_destination_dialled", int(dialled))
+		if !zero {
+			if unchanged < 12*time.Second {
+				r.Inconclusive(fmt.Sprintf("kill-at-open: bookkeeping still changing: %+v", last))
+			} else {
+				r.Violation("clean:record-remains-after-undeliverable-open-ack", "kill-at-open", ci,
+					fmt.Sprintf("%s topology: the exit's link to the requesting peer was closed just before it wrote a STREAM_OPEN_ACK (the destination was dialled %d times in this scenario); after everything settled the bookkeeping stayed non-zero and unchanged for %v: %+v",
+						tp.Name, dialled, unchanged.Round(time.Second), last), nil)
+			}
+		}
+		r.Eval(fmt.Sprintf("killopen/%s/%d/%d", tp.Name, ci, dialled), dialled > 0)
 	})
 }
